@@ -80,7 +80,7 @@ Definition calculate_frequency_p0f_style (current reference : tcp_timestamp) : o
       let effective_ms_diff := Z.max ms_diff 1 in
       let raw_freq :=
         if not32 ts_diff <? ts_diff
-        then {| qn := not32 ts_diff * 1000; qd := effective_ms_diff |}
+        then {| qn := - (not32 ts_diff * 1000); qd := effective_ms_diff |}   (* -(inverted as f64 * 1000.0) / ms: negative, as in p0f *)
         else {| qn := ts_diff * 1000; qd := effective_ms_diff |} in
       if q_le (q_of_Z MIN_FINAL_HZ) raw_freq && q_le raw_freq (q_of_Z MAX_FINAL_HZ)
       then Some raw_freq else None.
